@@ -60,6 +60,7 @@ Start ==
           <<~(g.state = "standby" /\ ~pass), "C05.StandbyPasses">>,
           <<~pass => Ev.fallback /\ ~Ev.entered, "C05.FallbackAnswers">>,
           <<pass => ~Ev.fallback, "C05.FallbackAnswers">>,
+          <<~pass => Ev.fbok, "C05.FallbackResponseAsConfigured">>,
           <<~IllegalTrans(g.state, Ev.trans), "C05.LegalTransition">>,
           <<~(g.state = "tripped" /\ now >= g.shield /\ (Ev.trans = <<>> \/ Head(Ev.trans) # "recovering")), "C12.RecoveryBegins">>,
           <<~(g.state = "recovering" /\ now > g.rstart + D /\ ~(pass /\ g1.state = "standby")), "C12.StandbyAfterRecovery">>,
@@ -119,7 +120,8 @@ Effects ==
   /\ IsEvent("Effects")
   /\ bad' = ReportAll(bad, scn, l, <<
         <<Ev.tripped = ntrip, "C18.OnTrippedOncePerTrip">>,
-        <<Ev.standby = nstandby, "C18.OnStandbyOncePerRecovery">> >>)
+        <<Ev.standby = nstandby, "C18.OnStandbyOncePerRecovery">>,
+        <<Ev.hookbad = 0, "C18.WebhookRequestAsConfigured">> >>)
   /\ UNCHANGED <<scn, cfg, now, b, resp, g, gresp, gnext, ntrip, nstandby, drift>> /\ nev' = nev + 1
 
 (* ---- hook-ordered events of the concurrent driver ---- *)
